@@ -64,13 +64,17 @@ def hashable(k):
 
 def ann_of(k):
   """A typing annotation text for kind k (None if not expressible)."""
+  return _ann_of(k)
+
+
+def _ann_of(k):
   m = {"int": "int", "float": "float", "bool": "bool", "str": "str",
        "bytes": "bytes", "none": "None"}
   if k in m:
     return m[k]
   if isinstance(k, tuple):
     if k[0] == "list":
-      a = ann_of(k[1])
+      a = _ann_of(k[1])
       return a and "list[%s]" % a
     if k[0] == "set":
       a = ann_of(k[1])
@@ -131,6 +135,13 @@ class G:
 
   def chance(self, pct):
     return self.i(0, 99) < pct
+
+  def ann(self, kind):
+    """Annotation text for a kind; now and then a bare `Any`."""
+    if self.cfg.annotations and self.chance(10):
+      self.needs_typing.add("Any")
+      return "Any"
+    return ann_of(kind)
 
   def fresh(self, prefix="v"):
     self.counter += 1
@@ -395,7 +406,7 @@ class G:
       name = self.fresh("v")
     src = self.expr(env, kind, 2)
     line = "%s = %s" % (name, src)
-    a = ann_of(kind)
+    a = self.ann(kind)
     if self.cfg.annotations and a and self.chance(
         int(self.cfg.annotations * 100)) and name not in env:
       if "Union[" in a:
@@ -507,7 +518,7 @@ class G:
       local[pn] = pk
     for (pn, pk, has_default, _) in params:
       s = pn
-      a = ann_of(pk)
+      a = self.ann(pk)
       if self.cfg.annotations and a and self.chance(
           int(self.cfg.annotations * 100)):
         if "Union[" in a:
@@ -552,7 +563,7 @@ class G:
       body.append(indent + "  return %s" % self.expr(body_env, ret, 1))
     sig = ", ".join(first + lines_params)
     rann = ""
-    a = ann_of(ret)
+    a = self.ann(ret)
     if self.cfg.annotations and a and self.chance(
         int(self.cfg.annotations * 100)):
       if "Union[" in a:
